@@ -84,10 +84,11 @@ use std::{
     path::Path,
     sync::{
         atomic::{AtomicBool, Ordering},
-        mpsc::SyncSender as Sender,
+        mpsc::{SyncSender as Sender, TrySendError},
         Arc, Mutex,
     },
     thread::{self, JoinHandle},
+    time::Duration,
 };
 
 use pest::{error::Error, Position};
@@ -157,6 +158,29 @@ pub struct DebuggerContext {
 
 const POISONED_LOCK_PANIC: &str = "poisoned lock";
 const CHANNEL_CLOSED_PANIC: &str = "channel closed";
+
+/// Delivers `event` like a blocking `send`, but gives up (returning `false`) when a new run
+/// is requested while the channel is full: the controller is then waiting for this thread in
+/// `run` and will never receive, so a blocking send would never return.
+fn send_unless_restarted(
+    sender: &Sender<DebuggerEvent>,
+    is_done: &AtomicBool,
+    mut event: DebuggerEvent,
+) -> bool {
+    loop {
+        match sender.try_send(event) {
+            Ok(()) => return true,
+            Err(TrySendError::Full(unsent)) => {
+                if is_done.load(Ordering::SeqCst) {
+                    return false;
+                }
+                event = unsent;
+                thread::sleep(Duration::from_millis(1));
+            }
+            Err(TrySendError::Disconnected(_)) => panic!("{}", CHANNEL_CLOSED_PANIC),
+        }
+    }
+}
 
 impl DebuggerContext {
     fn file_to_string(path: impl AsRef<Path>) -> Result<String, DebuggerError> {
@@ -279,9 +303,10 @@ impl DebuggerContext {
                     };
 
                     if contains_rule {
-                        rsender
-                            .send(DebuggerEvent::Breakpoint(rule, pos.pos()))
-                            .expect(CHANNEL_CLOSED_PANIC);
+                        let event = DebuggerEvent::Breakpoint(rule, pos.pos());
+                        if !send_unless_restarted(&rsender, &is_done_signal, event) {
+                            return true;
+                        }
 
                         thread::park();
                     }
@@ -298,12 +323,13 @@ impl DebuggerContext {
                 return;
             }
 
-            match result {
-                Ok(_) => sender.send(DebuggerEvent::Eof).expect(CHANNEL_CLOSED_PANIC),
-                Err(error) => sender
-                    .send(DebuggerEvent::Error(error.to_string()))
-                    .expect(CHANNEL_CLOSED_PANIC),
+            let event = match result {
+                Ok(_) => DebuggerEvent::Eof,
+                Err(error) => DebuggerEvent::Error(error.to_string()),
             };
+            if !send_unless_restarted(&sender, &is_done, event) {
+                return;
+            }
 
             is_done.store(true, Ordering::SeqCst);
         })
